@@ -797,6 +797,16 @@ _BUZZER_MELODIES = {
     },
 }
 
+def _nested_blocks(node: object) -> List[List[object]]:
+    """Return the statement lists nested in ``node`` in the order they are emitted."""
+    if isinstance(node, IfStatement):
+        return [branch.body for branch in node.branches] + [node.else_body]
+    if isinstance(node, TryStatement):
+        return [node.try_body] + [handler.body for handler in node.handlers]
+    body = getattr(node, "body", None)
+    return [body] if isinstance(body, list) else []
+
+
 def _emit_block(
     nodes: Iterable[object],
     led_pin: Dict[str, Union[int, str]],
@@ -1565,7 +1575,9 @@ def _emit_block(
             var_name = f"__redu_lcd_anim_{node.name}_{counter}"
             lcd_animation_counter[node.name] = counter + 1
             anim_list = lcd_animations.setdefault(info["object"], [])
-            anim_list.append((var_name, tick_kind))
+            if (var_name, tick_kind) not in anim_list:
+                # normally registered by emit() before any statement was emitted
+                anim_list.append((var_name, tick_kind))
             speed_expr = _emit_expr(node.speed_ms)
             row_expr = _emit_expr(node.row)
             lines.append(
@@ -2997,6 +3009,41 @@ def emit(ast: Program) -> str:
                 pin_mode_emitted.add(key)
                 setup_lines.append(f"  pinMode({pin_expr}, INPUT);")
 
+    # Register every lcd.animate call site before any statement is emitted, in
+    # the order the statements are emitted below (setup, loop, functions) and
+    # with the names the LCDAnimate branch of _emit_block gives them.  The
+    # LCDTick nodes at the head of loop() then advance the animations started
+    # inside the main loop and inside functions as well, and all their state
+    # variables are declared globally.
+    lcd_bound = dict(lcd_state)
+    lcd_sites: Dict[str, int] = {}
+
+    def _register_lcd_animations(nodes: List[object]) -> None:
+        for node in nodes:
+            if isinstance(node, LCDDecl):
+                bindings = (lcd_bound.get(node.name) or {}).get("bindings", ())
+                for bound in bindings:
+                    if bound.get("decl") is node:
+                        lcd_bound[node.name] = bound
+                        break
+            elif isinstance(node, LCDAnimate):
+                info = lcd_bound.get(node.name)
+                if info is None:
+                    continue
+                counter = lcd_sites.get(node.name, 0)
+                lcd_sites[node.name] = counter + 1
+                lcd_animations.setdefault(info["object"], []).append(
+                    (f"__redu_lcd_anim_{node.name}_{counter}", node.animation)
+                )
+            else:
+                for block in _nested_blocks(node):
+                    _register_lcd_animations(block)
+
+    _register_lcd_animations(setup_body or [])
+    _register_lcd_animations(loop_body or [])
+    for fn in getattr(ast, "functions", []):
+        _register_lcd_animations(getattr(fn, "body", []))
+
     # Pass 2: emit statements
     setup_lines.extend(
         _emit_block(
@@ -3126,7 +3173,7 @@ def emit(ast: Program) -> str:
             dict(lcd_decls),
             {name: dict(info) for name, info in lcd_state.items()},
             {name: [(var, kind) for var, kind in values] for name, values in lcd_animations.items()},
-            dict(lcd_animation_counter),
+            lcd_animation_counter,
             indent="  ",
             in_setup=False,
             emitted_pin_modes=set(),
